@@ -149,6 +149,13 @@ Spec == Init /\ [][Next]_vars
 LastBuild == hist[Len(hist)]
 C35_Verdict == LastIsBuild => /\ (LastBuild.expect = "ok" => res = "ok")
                               /\ (LastBuild.expect = "fail" => res = "fail")
+\* the model as the code is (both flaws TRUE) departs from the property only through the two recorded flaws
+C35_VerdictModuloFlaws ==
+  LastIsBuild => /\ (LastBuild.expect = "ok" => res = "ok")
+                 /\ (LastBuild.expect = "fail" /\ res = "ok") =>
+                       /\ LastBuild.how = "unchanged"
+                       /\ \/ (Flaw_FgUnchanged /\ shape = "fg")
+                          \/ (Flaw_Concat /\ \E i \in 1..Len(decl) : decl[i].k = "split")
 \* success under declared hashes leaves exactly the fresh outputs
 C35_Bytes == (LastIsBuild /\ res = "ok" /\ decl # <<>>) => (out # Nil /\ out.bytes = content)
 \* a failed verification leaves nothing recorded as verified
